@@ -62,7 +62,19 @@ func runC08(h *Harness) {
 	}
 
 	w := NewWorld(h, WorldOpts{Intermediate: tp.Chance(1, 2)})
-	loc := w.NewLocation(LocOpts{Name: "L1", URL: "http://crl.sim/a.crl", Issuer: w.A, NVers: rounds + 2, Extra: extra, Width: width, PEM: pem, EntryExt: tp.Chance(1, 3)})
+	lo := LocOpts{Name: "L1", URL: "http://crl.sim/a.crl", Issuer: w.A, NVers: rounds + 2, Extra: extra, Width: width, PEM: pem, EntryExt: tp.Chance(1, 3)}
+	switch meta := Pick(tp, "", "", "", "same-times", "no-number-v2", "no-number-v1", "same-number"); meta {
+	case "same-times":
+		lo.SameTimes = true
+	case "no-number-v2":
+		lo.NoNumber = 1
+	case "no-number-v1":
+		lo.NoNumber = 2
+	case "same-number":
+		lo.SameNumber = true
+	}
+	sc["meta"] = fmt.Sprintf("same_times=%v no_number=%d same_number=%v", lo.SameTimes, lo.NoNumber, lo.SameNumber)
+	loc := w.NewLocation(lo)
 	cfg := NodeCfg{Mode: "crl_only", Storage: backend, UpdateInterval: "10m", SigMode: Pick(tp, "verify", ""), CDPStrict: true}
 	if trigger == "updatecrl" {
 		cfg.CRLUrls = []string{loc.URL}
